@@ -10,45 +10,74 @@ theorem inv_oAnd (nn : Nat) (sh : Sh) (pcs : Tid → Pc) (t : Tid) (e : Env) (k 
   subst ht0
   have hcc : isPush (pcs 0) = false := by rw [hpc]; rfl
   have kK := h.hK 0; dsimp only at kK; rw [hpc] at kK; pcnorm at kK
+  have kD := h.r8d 0; dsimp only at kD; rw [hpc] at kD; pcnorm at kD
   skip
   skip
   split_hts
   all_goals (constructor <;> simp only [])
-  try (any_goals (case hN => ((bring hN hT hM; pcnorm; cnorm) <;> grind)))
-  try (any_goals (case hT => ((bring hT hN hM; pcnorm; cnorm) <;> grind)))
-  try (any_goals (case hV => ((bring hV hN hT hM; pcnorm; cnorm) <;> grind)))
-  try (any_goals (case hM => ((bring hM hN hT; pcnorm; cnorm) <;> grind)))
-  try (any_goals (case hP => ((bring hP hN hT hM; pcnorm; cnorm) <;> grind)))
-  try (any_goals (case hR => ((bring hR hN hT hM; pcnorm; cnorm) <;> grind)))
-  try (any_goals (case hS => ((bring hS hN hT hM; pcnorm; cnorm) <;> grind)))
+  try (any_goals (case hF => ((bring hF hN hT hM; pcnorm; cnorm) <;> grind)))
+  try (any_goals (case hN => ((bring hN hF hT hM; pcnorm; cnorm) <;> grind)))
+  try (any_goals (case hT => ((bring hT hF hN hM; pcnorm; cnorm) <;> grind)))
+  try (any_goals (case hV => ((bring hV hF hN hT hM; pcnorm; cnorm) <;> grind)))
+  try (any_goals (case hM => ((bring hM hF hN hT; pcnorm; cnorm) <;> grind)))
+  try (any_goals (case hP => ((bring hP hF hN hT hM; pcnorm; cnorm) <;> grind)))
+  try (any_goals (case hR => ((bring hR hF hN hT hM; pcnorm; cnorm) <;> grind)))
+  try (any_goals (case hS => ((bring hS hF hN hT hM; pcnorm; cnorm) <;> grind)))
   try (any_goals (case hC => (exact hC_upd _ _ _ h.hC (by simp [isCons]))))
-  try (any_goals (case vM => ((bring vM hN hT hM; pcnorm; cnorm) <;> grind)))
-  try (any_goals (case vN => ((bring vN hN hT hM; (try rw [hpc] at vN); pcnorm at vN; pcnorm; cnorm) <;> grind)))
-  try (any_goals (case vT => ((bring vT hN hT hM; (try rw [hpc] at vT); pcnorm at vT; pcnorm; cnorm) <;> grind)))
-  try (any_goals (case vO => ((bring vO hN hT hM; (try rw [hpc] at vO); pcnorm at vO; pcnorm; cnorm) <;> grind)))
-  try (any_goals (case lM => ((bring lM hN hT hM; (try rw [hpc] at lM); pcnorm at lM; pcnorm; cnorm) <;> grind)))
-  try (any_goals (case lN => ((bring lN hN hT hM; pcnorm; cnorm) <;> grind)))
-  try (any_goals (case lU => ((bring lU hN hT hM; (try rw [hpc] at lU); pcnorm at lU; pcnorm; cnorm) <;> grind)))
-  try (any_goals (case pT => ((bring pT hN hT hM; pcnorm; cnorm) <;> grind)))
-  try (any_goals (case hH => ((bring hH hN hT hM; pcnorm; cnorm) <;> grind)))
-  try (any_goals (case hK => (exact hK_upd _ _ _ _ _ h.hK (by grind) (by pcnorm; (try ((bring hN hT hM; pcnorm; cnorm) <;> grind))))))
-  try (any_goals (case rL => ((bring rL hN hT hM; pcnorm; cnorm) <;> grind)))
-  try (any_goals (case pA => ((bring pA hN hT hM; pcnorm; cnorm) <;> grind)))
-  try (any_goals (case pB => ((bring pB hN hT hM; pcnorm; cnorm) <;> grind)))
-  try (any_goals (case pC => ((bring pC hN hT hM; pcnorm; cnorm) <;> grind)))
-  try (any_goals (case sP => ((bring sP hN hT hM; pcnorm; cnorm) <;> grind)))
-  try (any_goals (case tS => ((bring tS hN hT hM; pcnorm; cnorm) <;> grind)))
-  try (any_goals (case d1 => ((bring d1 hN hT hM; (try rw [hpc] at d1); pcnorm at d1; pcnorm; cnorm) <;> grind)))
-  try (any_goals (case d2 => ((bring d2 hN hT hM; (try rw [hpc] at d2); pcnorm at d2; pcnorm; cnorm) <;> grind)))
-  try (any_goals (case d3 => ((bring d3 hN hT hM; pcnorm; cnorm) <;> grind)))
-  try (any_goals (case d4 => ((bring d4 hN hT hM; pcnorm; cnorm) <;> grind)))
-  try (any_goals (case cA => ((bring hN hT hM; pcnorm; cnorm) <;> grind)))
-  try (any_goals (case cI => ((bring hN hT hM; pcnorm; cnorm) <;> grind)))
-  try (any_goals (case cB => ((bring hN hT hM; pcnorm; cnorm) <;> grind)))
-  try (any_goals (case cC => ((bring hN hT hM; pcnorm; cnorm) <;> grind)))
-  try (any_goals (case rC => ((bring hN hT hM; pcnorm; cnorm) <;> grind)))
-  try (any_goals (case rD => ((bring hN hT hM; pcnorm; cnorm) <;> grind)))
-  try (any_goals (case rA => ((bring hN hT hM; pcnorm; cnorm) <;> grind)))
-  try (any_goals (case rB => ((bring hN hT hM; pcnorm; cnorm) <;> grind)))
+  try (any_goals (case vM => ((bring vM hF hN hT hM; pcnorm; cnorm) <;> grind)))
+  try (any_goals (case vN => ((bring vN hF hN hT hM; (try rw [hpc] at vN); pcnorm at vN; pcnorm; cnorm) <;> grind)))
+  try (any_goals (case vT => ((bring vT hF hN hT hM; (try rw [hpc] at vT); pcnorm at vT; pcnorm; cnorm) <;> grind)))
+  try (any_goals (case vO => ((bring vO hF hN hT hM; (try rw [hpc] at vO); pcnorm at vO; pcnorm; cnorm) <;> grind)))
+  try (any_goals (case lM => ((bring lM hF hN hT hM; (try rw [hpc] at lM); pcnorm at lM; pcnorm; cnorm) <;> grind)))
+  try (any_goals (case lN => ((bring lN hF hN hT hM; pcnorm; cnorm) <;> grind)))
+  try (any_goals (case lU => ((bring lU hF hN hT hM; (try rw [hpc] at lU); pcnorm at lU; pcnorm; cnorm) <;> grind)))
+  try (any_goals (case pT => ((bring pT hF hN hT hM; pcnorm; cnorm) <;> grind)))
+  try (any_goals (case hH => ((bring hH hF hN hT hM; pcnorm; cnorm) <;> grind)))
+  try (any_goals (case hK => (exact hK_upd _ _ _ _ _ h.hK (by grind) (by pcnorm; (try ((bring hF hN hT hM; pcnorm; cnorm) <;> grind))))))
+  try (any_goals (case rL => ((bring rL hF hN hT hM; pcnorm; cnorm) <;> grind)))
+  try (any_goals (case pA => ((bring pA hF hN hT hM; pcnorm; cnorm) <;> grind)))
+  try (any_goals (case pB => ((bring pB hF hN hT hM; pcnorm; cnorm) <;> grind)))
+  try (any_goals (case pC => ((bring pC hF hN hT hM; pcnorm; cnorm) <;> grind)))
+  try (any_goals (case sP => ((bring sP hF hN hT hM; pcnorm; cnorm) <;> grind)))
+  try (any_goals (case tS => ((bring tS hF hN hT hM; pcnorm; cnorm) <;> grind)))
+  try (any_goals (case d1 => ((bring d1 hF hN hT hM; (try rw [hpc] at d1); pcnorm at d1; pcnorm; cnorm) <;> grind)))
+  try (any_goals (case d2 => ((bring d2 hF hN hT hM; (try rw [hpc] at d2); pcnorm at d2; pcnorm; cnorm) <;> grind)))
+  try (any_goals (case d3 => ((bring d3 hF hN hT hM; pcnorm; cnorm) <;> grind)))
+  try (any_goals (case d4 => ((bring d4 hF hN hT hM; pcnorm; cnorm) <;> grind)))
+  try (any_goals (case cA => ((bring hF hN hT hM; pcnorm; cnorm) <;> grind)))
+  try (any_goals (case cI => ((bring hF hN hT hM; pcnorm; cnorm) <;> grind)))
+  try (any_goals (case cB => ((bring hF hN hT hM; pcnorm; cnorm) <;> grind)))
+  try (any_goals (case cC => ((bring hF hN hT hM; pcnorm; cnorm) <;> grind)))
+  try (any_goals (case rC => ((bring hF hN hT hM; pcnorm; cnorm) <;> grind)))
+  try (any_goals (case rD => ((bring hF hN hT hM; pcnorm; cnorm) <;> grind)))
+  try (any_goals (case rA => ((bring hF hN hT hM; pcnorm; cnorm) <;> grind)))
+  try (any_goals (case rB => ((bring hF hN hT hM; pcnorm; cnorm) <;> grind)))
+  try (any_goals (case hW => ((bring hW hF hN hT hM; pcnorm; cnorm) <;> grind)))
+  try (any_goals (case r1 => ((bring r1 hF hN hT hM; pcnorm; cnorm) <;> grind)))
+  try (any_goals (case r2 => ((bring r2 hF hN hT hM; pcnorm; cnorm) <;> grind)))
+  try (any_goals (case r3 => ((bring r3 hF hN hT hM; pcnorm; cnorm) <;> grind)))
+  try (any_goals (case r5 => ((bring r5 hF hN hT hM; pcnorm; cnorm) <;> grind)))
+  try (any_goals (case r6 => ((bring r6 hF hN hT hM; pcnorm; cnorm) <;> grind)))
+  try (any_goals (case r6q => ((bring r6q hF hN hT hM; (try rw [hpc] at r6q); pcnorm at r6q; pcnorm; cnorm) <;> grind)))
+  try (any_goals (case r7 => ((bring r7 hF hN hT hM; (try rw [hpc] at r7); pcnorm at r7; pcnorm; cnorm) <;> grind)))
+  try (any_goals (case hTs => ((bring hTs hF hN hT hM; pcnorm; cnorm) <;> grind)))
+  try (any_goals (case r8a => ((bring r8a hF hN hT hM; pcnorm; cnorm) <;> grind)))
+  try (any_goals (case r8b => ((bring r8b hF hN hT hM; pcnorm; cnorm) <;> grind)))
+  try (any_goals (case r8c => ((bring r8c hF hN hT hM; pcnorm; cnorm) <;> grind)))
+  try (any_goals (case r8d =>
+    refine r8d_upd _ _ _ _ _ _ _ h.r8d ?_ ?_
+    · (intro u m hu h1 h2) <;> (have hkt := h.r8d 0; dsimp only at hkt; rw [hpc] at hkt; pcnorm at hkt; bring r8a) <;> grind
+    · (intro m hm; pcnorm at hm) <;> (have hkt := h.r8d 0; dsimp only at hkt; rw [hpc] at hkt; pcnorm at hkt; bring r8a) <;> grind))
+  try (any_goals (case r9 => ((bring r9 hF hN hT hM; pcnorm; cnorm) <;> grind)))
+  try (any_goals (case r10 => ((bring r10 hF hN hT hM; (try rw [hpc] at r10); pcnorm at r10; pcnorm; cnorm) <;> grind)))
+  try (any_goals (case dT => ((bring dT hF hN hT hM; pcnorm; cnorm) <;> grind)))
+  try (any_goals (case dK => ((bring dK hF hN hT hM; (try rw [hpc] at dK); pcnorm at dK; pcnorm; cnorm) <;> grind)))
+  try (any_goals (case dD =>
+    refine dD_upd _ _ _ _ _ h.dD ?_ ?_
+    · intro hd; first | exact hd | simp at hd
+    · (intro hd; have hdt := h.dD 0; dsimp only at hdt; rw [hpc] at hdt; pcnorm at hdt; pcnorm) <;> simp_all))
+  try (any_goals (case hI => (exact hI_upd _ _ _ _ _hlt h.hI)))
+  try (any_goals (case dE1 => ((bring dE1 hF hN hT hM; pcnorm; cnorm) <;> grind)))
+  try (any_goals (case dE => ((bring dE hF hN hT hM; pcnorm; cnorm) <;> grind)))
 
 end MayVerif.TimerList
